@@ -547,6 +547,23 @@ func (r *runner) runAll() {
 		r.one(v, Spec{Kind: "default"}, "default", true)
 	}
 
+	// F3r: the alternate Array layout where the size rule's RUNS matter (arraytype.go:678-692: the running width is reset
+	// by a container child): scalar runs on both sides of a container child, widths below a run, between the longest run
+	// and the total, and above the total; all of them go to the model and to the closed formula (arr_closed_check)
+	runsPool := []Val{
+		vArr(vInt(1000), vInt(2000), vArr(vInt(1)), vInt(3000), vInt(4000)),
+		vArr(vInt(10), vArr(vInt(1), vInt(2)), vInt(20), vHash(vStr("a"), vInt(1)), vInt(30)),
+		vArr(vArr(), vInt(12345), vInt(6), vArr(vInt(7)), vInt(8)),
+		vArr(vInt(1), vInt(22), vInt(333), vHash(), vInt(4444)),
+	}
+	for _, v := range runsPool {
+		for _, fl := range []string{"#", "#(", "#-"} {
+			for _, w := range []int{0, 1, 2, 3, 5, 6, 7, 8, 12, 16, 40} {
+				r.one(v, sStr(Directive{Flags: fl, Width: w, Prec: -1, Letter: 'a'}.String()), "array-runs", fl == "#" || w == 7)
+			}
+		}
+	}
+
 	// F3s: values with aliasing (one container instance at several positions) under every container
 	// format letter of Array and Hash x plain / alternate / delimiter / width, as a top-level directive
 	// and through the per-type map; all of them go to the model of the recursion guard (share_model)
